@@ -54,8 +54,16 @@ def S(q):
 def make_nm(init):
     from shangrla.core.NonnegMean import NonnegMean as NM
     kw = {k: float(F(v)) for k, v in init["kw"].items() if v is not None}
-    N = np.inf if init["N"] is None else int(init["N"])
-    args = dict(u=float(F(init["u"])), N=N, t=float(F(init["t"])), random_order=init["ro"])
+    # representations of equal values: an infinite N as numpy's, math's or a parsed float; the random-order flag as
+    # a Python bool, a numpy bool (the result of a numpy comparison) or 0/1
+    inf = {"math": math.inf, "float": float("inf")}.get(init.get("inf_type"), np.inf)
+    N = inf if init["N"] is None else int(init["N"])
+    ro = init["ro"]
+    if init.get("ro_type") == "np":
+        ro = np.bool_(ro)
+    elif init.get("ro_type") == "int":
+        ro = int(ro)
+    args = dict(u=float(F(init["u"])), N=N, t=float(F(init["t"])), random_order=ro)
     if init.get("test") is not None:
         args["test"] = getattr(NM, init["test"])
     # `omit`: constructor arguments LEFT OUT of the call because their value is the documented default
@@ -116,7 +124,10 @@ def _xs_array(case):
         if isinstance(case["int_dtype"], str):
             return np.array([int(v) for v in vals], dtype=np.dtype(case["int_dtype"]))
         return np.array([int(v) for v in vals])
-    return np.array([float(v) for v in vals], dtype=float)
+    a = np.array([float(v) for v in vals], dtype=float)
+    if case.get("negzero"):
+        a[a == 0] = -0.0          # IEEE negative zero: equal to 0, inside [0,u]
+    return a
 
 
 def flo(a):
@@ -129,10 +140,35 @@ def bc(v, n):
     return flo(np.broadcast_to(a, (n,))) if a.ndim == 0 else flo(a)
 
 
+def _decoy(xa):
+    """another sample of the same length and total for the earlier use of an object / of the module: the draws in
+    reverse order, or -- when two interior draws differ -- the same first and last draw with two interior draws exchanged
+    (same first value, same last value, same total, same prefix sums from the later of the two positions on)"""
+    xa = np.asarray(xa, dtype=float)
+    n = len(xa)
+    if n > 3 and (int(n + 7 * xa.sum()) % 2 == 0):
+        inner = xa[1:n - 1]
+        diff = np.nonzero(inner != inner[0])[0]
+        if len(diff):
+            i, j = 1, 1 + int(diff[int(3 * xa.sum()) % len(diff)])
+            d = xa.copy()
+            d[i], d[j] = d[j], d[i]
+            return d
+    return xa[::-1].copy()
+
+
 def impl(case):
     nm = make_nm(case["init"])
     op = case["op"]
     x = xs(case)
+    if op in ("estim", "bet") and len(x) > 2:
+        # an earlier, independent computation in the same process (another object) on a rearrangement of the sample
+        try:
+            o = make_nm(case["init"])
+            with np.errstate(all="ignore"):
+                (o.estim if op == "estim" else o.bet)(_decoy(x))
+        except Exception:  # noqa
+            pass
     if op == "test":
         p, h = nm.test(x)
         res = {"st": "ok", "p": float(p), "hist": flo(h)}
@@ -145,7 +181,7 @@ def impl(case):
         reuse = None
         try:
             if len(xa) > 1:
-                nm2.test(xa[::-1].copy())
+                nm2.test(_decoy(xa))
             for k in (1, 2):
                 p2, h2 = nm2.test(xa)
                 if not (np.array_equal(np.asarray(h2, dtype=float), np.asarray(h, dtype=float), equal_nan=True)
@@ -159,10 +195,25 @@ def impl(case):
             reuse = f"a used test object raised {type(e).__name__} on a sample a fresh object accepts"
         res["reuse"] = reuse
         return res
-    if op == "estim":
-        return {"st": "ok", "v": bc(nm.estim(x), len(x))}
-    if op == "bet":
-        return {"st": "ok", "v": bc(nm.bet(x), len(x))}
+    if op in ("estim", "bet"):
+        f = (lambda o, z: o.estim(z)) if op == "estim" else (lambda o, z: o.bet(z))
+        v = f(nm, x)
+        # the result is HELD while another, independent object computes on another sample of the same length (two
+        # assertions of one contest): what was returned for this sample must still be what it was
+        before = bc(v, len(x))
+        try:
+            other = make_nm(dict(case["init"], t=S(F(case["init"]["t"]) / 8), u_now=None))
+            xo = np.array(x, dtype=float)[::-1].copy() / 4
+            with np.errstate(all="ignore"):
+                f(other, xo)
+        except Exception:  # noqa
+            pass
+        after = bc(v, len(x))
+        res = {"st": "ok", "v": before}
+        if not np.array_equal(np.asarray(before), np.asarray(after), equal_nan=True):
+            res["held"] = (f"the array returned by {op}() changed after an independent object computed on another sample "
+                           f"of the same length: {before[:6]} became {after[:6]}")
+        return res
     if op == "conv":
         lam = np.array([float(F(v)) for v in case["lam"]])
         mu = np.array([float(F(v)) for v in case["mu"]])
@@ -201,6 +252,8 @@ def compare(case, ir, mr):
             return (f"history differs at {bad[:5]} (len impl {len(ir['hist'])} model {len(mr['hist'])}): "
                     f"impl {ir['hist'][i] if bad else None!r} model {mr['hist'][i] if bad else None}")
         return None
+    if op in ("estim", "bet") and ir.get("held"):
+        return ir["held"]
     if op in ("estim", "bet"):
         # sqrt is approximated to 30 digits in the driver; estimates agree to 1e-9
         if not nums_close(ir["v"], mr["v"]):
@@ -553,6 +606,13 @@ def gen_case(rng, tier, op="test", force_test=None, us=None):
     case = {"op": op, "init": init, "x": [S(v) for v in x], "stream": stream}
     if x and all(F(v).denominator == 1 for v in x) and rng.chance(0.5):
         case["int_dtype"] = True
+    # representations of equal values (see make_nm / xs)
+    if rng.chance(0.15):
+        init["ro_type"] = rng.choice(["np", "np", "int"])
+    if N is None and rng.chance(0.2):
+        init["inf_type"] = rng.choice(["math", "float"])
+    if not case.get("int_dtype") and any(F(v) == 0 for v in x) and rng.chance(0.1):
+        case["negzero"] = True
     return case
 
 
@@ -1078,10 +1138,28 @@ def gen_tol(rng, tier):
     return None
 
 
+def gen_t_edge(rng, tier):
+    """the null mean ON the boundary of its range (t = u or t = 0; outside 0 < t < u, so no oracle speaks, but the code
+    accepts it and the masks `mu_j is 0 / is u` are what keeps 0/0 out of the history): correspondence only"""
+    for _ in range(8):
+        c = gen_case(rng, tier, "test", force_test=rng.choice(["alpha_mart", "alpha_mart", "betting_mart", "wald_sprt"]))
+        if c["stream"] == "malformed":
+            continue
+        init = c["init"]
+        u = F(init["u_now"] if init.get("u_now") is not None else init["u"])
+        init["t"] = S(rng.choice([u, u, F(0)]))
+        init["kw"].pop("eta", None)
+        c["stream"] = "t-edge:" + c["stream"]
+        return c
+    return None
+
+
 def gen_extra(rng, tier):
     r = rng.random()
     if r < 0.05:
         return gen_long(rng, tier)
+    if r < 0.10:
+        return gen_t_edge(rng, tier)
     if r < 0.20:
         return gen_tol(rng, tier)
     r = rng.random()
@@ -1452,6 +1530,8 @@ def prefix(x):
 
 def oracle_c13(case, ir):
     """range of the shipped estimators / bets on the implementation"""
+    if ir.get("held"):
+        return {"what": ir["held"]}
     init = case["init"]
     if case.get("stream") == "malformed" or not case["x"]:
         return None
@@ -1579,6 +1659,8 @@ def _c05_param(init, op, x, base, what):
 def oracle_c05(case, ir):
     """non-anticipation, metamorphic on the implementation: change the tail, keep the head
     (several cut points, several replacement tails incl. shorter and longer ones); truncate"""
+    if ir.get("held"):
+        return {"what": "the value reported for draw j no longer depends on this sample alone: " + ir["held"]}
     if case.get("stream") == "malformed" or ir.get("st") != "ok" or len(case["x"]) < 2:
         return None
     init = case["init"]
